@@ -85,8 +85,12 @@ static z3::expr bvval(u128 c, unsigned w) {
   if (w <= 128) return z3::concat(Z.bv_val((uint64_t)(c >> 64), w - 64), lo);
   return z3::zext(z3::concat(Z.bv_val((uint64_t)(c >> 64), 64), lo), w - 128);
 }
+struct State;
+static State* gCur = nullptr;                       // state being executed (for folding terms whose inputs are all pinned)
+static bool foldPinned(z3::expr& e);                // defined after State
 static Val symv(unsigned w, const z3::expr& e0, uint32_t pobj = 0) {
   z3::expr s = e0.simplify();
+  if (gCur && !s.is_numeral()) foldPinned(s);
   if (s.is_numeral() && w <= 128) {
     uint64_t x = 0;
     if (w <= 64) {
@@ -408,6 +412,16 @@ static z3::expr applyPins(const State& s, const z3::expr& e) {
 static z3::expr asBool(const Val& v) { return toExpr(v) != bvval(0, v.w); }
 
 
+static bool foldPinned(z3::expr& e) {
+  State& st = *gCur;
+  if (st.pins.empty()) return false;
+  const auto& vs = varsOf(e);
+  if (vs.empty()) return false;
+  for (uint32_t v : vs) if (!st.pins.count(v)) return false;
+  e = applyPins(st, e);
+  return true;
+}
+
 // ---------------------------------------------------------------- significant-bits analysis (cheap narrowing of mul/div)
 // sigBits(e): an upper bound on 1 + index of the highest bit of e that can be set.  Multiplications and divisions whose
 // operands are provably narrow (zero-extended bytes, small constants) are performed at the narrow width and zero-extended:
@@ -622,10 +636,16 @@ static Val loadBytes(const Obj* o, uint64_t off, unsigned n, unsigned w) {
   if (w < n * 8) e = e.extract(w - 1, 0);
   return symv(w, e);
 }
+static void storeInt(State& s, uint64_t ptr, const Val& v);
 static Val loadInt(State& s, uint64_t ptr, unsigned w) {
   unsigned n = (w + 7) / 8;
   const Obj* o = robj(s, ptr, n, "load");
-  return loadBytes(o, ptr & 0xffffffffu, n, w);
+  Val v = loadBytes(o, ptr & 0xffffffffu, n, w);
+  if (v.sym() && !s.pins.empty()) {
+    z3::expr e = *v.e;
+    if (foldPinned(e)) { Val c = symv(w, e); if (!c.sym()) { storeInt(s, ptr, c); return c; } }   // all inputs pinned: the cell is concrete from now on
+  }
+  return v;
 }
 static void storeInt(State& s, uint64_t ptr, const Val& v) {
   unsigned n = (v.w + 7) / 8;
@@ -1163,6 +1183,7 @@ static bool forkOn(State& s, const z3::expr& t0, std::function<void(State&)> onF
 }
 
 static void runPath(State s) {
+  gCur = &s;
   try {
     while (true) {
       Frame& f = s.st.back();
